@@ -92,7 +92,8 @@ def gen_port(rng, ctx, pod, podip, used, lo=1, hi=65535):
     used.add((hp, pr.lower()))
     p = dict(hostPort=hp, containerPort=rng.choice([80, 8, 8080, 53, hp]), protocol=pr, podName=pod, podIP=podip)
     if rng.random() < 0.3:
-        p["hostIP"] = rng.choice(["127.0.0.1", "10.1.2.3", "192.168.0.9"])
+        # incl. the unspecified addresses (legal in a pod spec: "all addresses")
+        p["hostIP"] = rng.choice(["127.0.0.1", "10.1.2.3", "192.168.0.9", "0.0.0.0", "0.0.0.0", "::"])
     return p
 
 
